@@ -19,7 +19,8 @@ from vf.core import Collector, Ctx, hyp_explore, jdump
 RULE = (
     "Packets are generated from the library's own per-verb/code regexes (all 240 pairs round-robin + random), under "
     "the legal address shapes with src/dst types drawn from the sets the parsers branch on; arrays of 1..8 elements "
-    "with distinct indexes for 0009/000A/2309/30C9/2249/22C9/3150 from controller/UFC/programmer sources; sequences "
+    "with distinct indexes for 0009/000A/2309/30C9/2249/22C9/3150 from controller/UFC/programmer sources; corpus lines "
+    "with 1..3 payload bytes replaced by boundary/random values; seqn-siblings of every decoded frame; sequences "
     "of 2..400 packets decoded in order, reversed, twice, after clearing the caches and under a different clock. A "
     "case is non-trivial when the packet decodes; distinct by (verb, code, shape, src type, payload). Array cases count "
     "when n >= 2; order cases when a line appears at two positions."
@@ -150,6 +151,30 @@ def check_payload(col: Collector, f: dict, payload: Any, pkt: Any) -> None:
     _walk(payload, rng)
 
 
+def _strip_seqx(p: Any) -> Any:
+    return {k: v for k, v in p.items() if k != "seqx_num"} if isinstance(p, dict) else p
+
+
+def check_siblings(col: Collector, line: str, payload: Any) -> None:
+    """Metamorphic: the same frame with another sequence number decodes to the same payload, except for the
+    packet-level 'seqx_num' key (present iff the seqn is numeric, and then equal to it) - whatever was decoded before."""
+    sq = line[7:10]
+    for other in ("---", "123", "007"):
+        if other == sq:
+            continue
+        sib = line[:7] + other + line[10:]
+        s2, p2, _ = decode(sib)
+        if s2 != "ok":
+            col.note("sibling with other seqn does not decode")
+            continue
+        if canon(_strip_seqx(p2)) != canon(_strip_seqx(payload)):
+            col.violation({"clause": "nondeterministic", "how": "seqn-sibling", "code": line[41:45]}, {"lines": [line, sib], "line": sib},
+                          f"{line!r} -> {canon(payload)[:200]} but {sib!r} -> {canon(p2)[:200]}")
+        elif isinstance(p2, dict) and p2.get("seqx_num") not in ((other, None) if other.isnumeric() else (None,)):
+            col.violation({"clause": "nondeterministic", "how": "seqn-sibling", "code": line[41:45]}, {"lines": [line, sib], "line": sib},
+                          f"after {line!r}, {sib!r} reports seqx_num={p2.get('seqx_num')!r}")
+
+
 def _src_classes(f: dict) -> list[str]:
     return [f"verb:{f['verb'].strip()}", f"shape:{f['shape']}", f"src:{f['src'][:2]}"]
 
@@ -180,6 +205,7 @@ def explore_single(job: dict) -> dict:
         if (st2, canon(p2)) != (st_, canon(payload)) or (st3, canon(p3)) != (st_, canon(payload)):
             col.violation({"clause": "nondeterministic", "how": "repeat/cold", "code": f["code"]}, {"line": f["line"]},
                           f"{canon(payload)[:150]} vs {canon(p2)[:150]} vs {canon(p3)[:150]}")
+        check_siblings(col, f["line"], payload)
 
     if "lo" in job:
         for i, pair in enumerate(pairs):
@@ -187,6 +213,50 @@ def explore_single(job: dict) -> dict:
             col.note("verb/code pairs visited")
     else:
         hyp_explore(G.schema_frame(), body, job["n"], job["seed"])
+    return col.dump()
+
+
+BOUNDARY_BYTES = ("00", "01", "63", "64", "65", "7F", "80", "C7", "C8", "C9", "EF", "F0", "FA", "FC", "FF")
+
+
+def explore_mutants(job: dict) -> dict:
+    """Corpus lines (which decode, and so pass the parsers' structural asserts) with 1..3 payload-only edits."""
+    from hypothesis import strategies as st
+
+    from vf.env.quiet import quiet_logs
+    from vf.gen import mutate as M
+    from vf.gen.frames import HEX
+    from vf.props.c02 import parse_components
+
+    quiet_logs()
+    col = Collector()
+    lines = M.corpus_pkt_lines()
+
+    @st.composite
+    def mut(draw: Any) -> str:
+        ln = draw(st.sampled_from(lines))
+        head, pl = ln[:50], ln[50:]
+        nb = len(pl) // 2
+        for _ in range(draw(st.integers(1, 3))):
+            i = draw(st.integers(0, nb - 1)) * 2
+            if draw(st.booleans()):
+                b = draw(st.sampled_from(BOUNDARY_BYTES))
+            else:
+                b = draw(st.text(HEX, min_size=2, max_size=2))
+            pl = pl[:i] + b + pl[i + 2:]
+        return head + pl
+
+    def body(ln: str) -> None:
+        f = parse_components(ln[4:])
+        f["line"] = ln
+        st_, payload, pkt = decode(ln)
+        nt = (f["verb"], f["code"], f["shape"], f["src"][:2], f["payload"]) if st_ == "ok" else None
+        col.case(nt=nt, classes=["mutant", f"mutant-decode:{st_.split(':')[0]}"], sample={"line": ln, "status": st_})
+        if st_ == "ok":
+            check_payload(col, f, payload, pkt)
+            check_siblings(col, ln, payload)
+
+    hyp_explore(mut(), body, job["n"], job["seed"])
     return col.dump()
 
 
@@ -336,7 +406,7 @@ def explore_orders(job: dict) -> dict:
         for how, obs in runs.items():
             for ln, o in zip(lines, obs):
                 if o != solo[ln]:
-                    col.violation({"clause": "nondeterministic", "how": how, "code": ln[45:49] if len(ln) > 49 else "?"},
+                    col.violation({"clause": "nondeterministic", "how": how, "code": ln[41:45] if len(ln) > 45 else "?"},
                                   {"lines": lines if len(lines) <= 12 else [ln], "line": ln},
                                   f"{how}: {o} vs alone {solo[ln]}")
                     return
@@ -363,9 +433,10 @@ def run(ctx: Ctx, col: Collector) -> None:
     step = (npairs + k - 1) // k
     ctx.parallel(explore_single, [{"lo": a, "hi": min(a + step, npairs), "per_pair": ctx.n(40, 1500)} for a in range(0, npairs, step)], col)
     ctx.parallel(explore_single, ctx.shards(ctx.n(30_000, 1_000_000)), col)
+    ctx.parallel(explore_mutants, ctx.shards(ctx.n(24_000, 800_000)), col)
     ctx.parallel(explore_arrays, ctx.shards(ctx.n(8_000, 300_000)), col)
     ctx.parallel(explore_orders, ctx.shards(ctx.n(640, 16_000), per_shard_min=10), col)
-    ctx.floors = [("decode:ok", "", 0.3), ("array:n=2-8", "", 0.05)]
+    ctx.floors = [("decode:ok", "", 0.2), ("array:n=2-8", "", 0.03), ("mutant-decode:ok", "mutant", 0.3)]
 
 
 def replay(case: dict) -> list[tuple[dict, str]]:
@@ -406,7 +477,7 @@ def replay(case: dict) -> list[tuple[dict, str]]:
         for ln in lines + lines:
             st_, p, _ = decode(ln)
             if (st_, canon(p)) != solo[ln]:
-                col.violation({"clause": "nondeterministic", "how": "in-order", "code": ln[45:49]}, {"lines": lines, "line": ln},
+                col.violation({"clause": "nondeterministic", "how": "in-order", "code": ln[41:45]}, {"lines": lines, "line": ln},
                               f"{(st_, canon(p))} vs alone {solo[ln]}")
                 break
     return [(e["sig"], e["cases"][0]["detail"]) for e in col.violations.values()]
